@@ -181,6 +181,11 @@ VersFrom(i, cur, acc) ==
        ELSE VersFrom(i + 1, cur, acc)
 versions == VersFrom(1, {}, {{}})
 
+\* Known finding KF-19 call site: a must-be-fresh ListObjects served with the check query cache on.
+\* Its follow-up Checks are built without the cache controller, so their cached sub-results are
+\* never compared with the invalidation time and stay in use until their TTL.
+Restamped(ev) == "prewarmed" \in DOMAIN ev /\ ev.prewarmed
+
 \* A Check event may also carry "stale" = "ok" (cache checks C11): the request was issued
 \* when the caches are allowed to be stale (a write happened and no invalidation run that
 \* started after it has completed yet).  Then the decision must be the reference value of
@@ -333,6 +338,7 @@ TrListObjects ==
   /\ LET c == ListObjectsClass(model, AllTuples(Ev1), Ev1)
          staleOK == "stale" \in DOMAIN Ev1 /\ Ev1.stale = "ok" /\ ~Ev1.err
      IN IF c[1] \notin OKs /\ staleOK THEN Judge("OK_STALE_PERMITTED", c[2], Ev1.eng)
+        ELSE IF c[1] \notin OKs /\ Restamped(Ev1) /\ ~Ev1.err THEN Judge("KF_ListObjectsIgnoresInvalidation", c[2], Ev1.eng)
         ELSE IF c[1] \in OKs /\ ~NativeSame(Ev1) THEN Judge("BAD_DIFFERS_FROM_NATIVE", ToString(Ev1.native), Ev1.eng)
         ELSE Judge(c[1], c[2], Ev1.eng)
   /\ UNCHANGED <<model, stored>>
